@@ -44,8 +44,8 @@ class StreamFlowExecutor(Executor):
             for task in tasks:
                 task.cancel()
             await asyncio.gather(*tasks)
-            # Mark the executor as closed
-            self._closed = True
+            # Terminate all steps and mark the executor as closed
+            await self.close()
 
     async def _handle_exception(self, task: asyncio.Task[Token | None]) -> Token | None:
         try:
